@@ -41,7 +41,7 @@ RULE = ("region specs drawn from a harness RNG keyed by (VERIF_SEED, family, rep
         "polygonal in one plane (all three operations) and in two planes (union), convex solid x "
         "convex solid (mesh Booleans), solid x planar slice, polyline x planar, path x solid, "
         "point set / grid x anything (exact enumeration of all RNG outcomes).  Plus histories "
-        "(96 quick / 1200 thorough): one shared region OBJECT (footprint, polygon as itself and via "
+        "(96 quick / 480 thorough): one shared region OBJECT (footprint, polygon as itself and via "
         ".footprint, upright box / prism, disc, rectangle) and 2-4 partners met in sequence "
         "(intersect / union / difference in both operand orders, containsPoint / intersects / size "
         "probes and small draws in between, deferred sampling, a partner met again); partners of a "
@@ -67,7 +67,7 @@ PRIMS = ["Box", "Spheroid", "MeshVol", "MeshSurf", "Polygon", "Circle", "Sector"
          "Polyline", "Path", "PointSet", "Grid"]
 PLANAR = list(gen.PLANAR)
 SLOW = ("Box", "Spheroid", "MeshVol")
-HIST_QUICK, HIST_THOROUGH = 96, 1200
+HIST_QUICK, HIST_THOROUGH = 96, 480
 
 
 def families():
